@@ -257,6 +257,12 @@ def gen_cache_trace(seed, faults, kinds=("wb", "wt")):
     marathon = R.marathon(seed)
     if marathon:
         n = marathon
+        rm = R.stream(seed, "marathon-shape")
+        if rm.random() < 0.5:
+            # wide marathon: hundreds of different blocks, so that the backing memory, the tables and any index a
+            # memory system keeps grow past a few hundred / a thousand entries
+            ctx.nblocks = rm.choice([40, 130, 300])
+            ctx.sets_used = min(1 << cfg["ib"], 4)
     p_write = r.choice([0.2, 0.5, 0.5, 0.8])
     p_fault = r.choice([0.05, 0.1, 0.2]) if faults else 0.0
     p_unc = r.choice([0.0, 0.1, 0.3])
@@ -320,12 +326,15 @@ def gen_flat_trace(seed, faults):
     window = r.choice([lo, lo, lo + r.randrange(0, 64), hi - 40, (lo + hi) // 2])
     ops = []
     n = r.choice([r.randint(1, 10), r.randint(5, 40), r.randint(20, 80)])
-    n = R.marathon(seed) or n
+    marathon = R.marathon(seed)
+    n = marathon or n
+    # wide marathon: thousands of different cells (the cell map and the tables grow past 256 / 1024 / 4096 entries)
+    span = R.stream(seed, "marathon-shape").choice([24, 700, 3000]) if marathon else 24
     for _ in range(n):
         w = r.choice(widths)
         k = r.random()
         if not faults or k < 0.7:
-            a = window + r.randrange(0, 24)
+            a = window + r.randrange(0, span)
             if a < lo:
                 a = lo
             if a + w // cw > hi:
